@@ -2,7 +2,7 @@
    Two theorems that compose: (a) for EVERY wavelet-matrix compatible code table the tree is
    correct; (b) the code builder returns such a table for EVERY admissible length assignment
    and EVERY order among symbols of equal length.  Statements only, closed by [exact]. *)
-From QwtModel Require Import ListX Seq Consts QVec RSQ QWT Huff RSQBuild Codes HQWTP CraftP.
+From QwtModel Require Import ListX Seq Consts QVec RSQ QWT Huff RSQBuild Codes HQWTP CraftP HQWTNewP.
 
 Definition C02_contract (w bsize : N) (t : hqwt) (seq : list N) : Prop :=
   hq_len t = len seq /\
@@ -78,3 +78,22 @@ Theorem C02_known_finding_code_longer_than_32_bits : forall frag c j l size, 32 
   craft_expand frag c j l size = Fault Overflow.
 Proof. intros frag c j l size H. unfold craft_expand. replace (32 <=? l) with true by (symmetry; apply N.leb_le; exact H). reflexivity. Qed.
 Print Assumptions C02_known_finding_code_longer_than_32_bits.
+
+(* end to end: HuffQWaveletTree::new = code builder on the external coder's lengths f (any tie
+   order) followed by the tree builder.  [lengths_for seq f]: f lists exactly the distinct symbols
+   of seq with admissible lengths.  The second form replaces "the code builder returned" by the
+   explicit sufficient condition (lengths <= 32 bits — KF-17 — and the scratch array fits). *)
+Theorem C02_new_end_to_end : forall w bsize seq f, width_ok w -> (bsize = 256 \/ bsize = 512) ->
+  Forall (fun x => x < 2 ^ w) seq -> len seq < RSQ_MAXN -> seq <> [] -> maxN seq < 2 ^ 64 - 1 ->
+  lengths_for seq f ->
+  forall tab, craft4 f (sym_index (maxN seq)) = Val tab ->
+  exists t, hq_new bsize seq f = Val t /\ C02_contract w bsize t seq.
+Proof. exact hq_new_correct. Qed.
+Print Assumptions C02_new_end_to_end.
+
+Theorem C02_new_total : forall w bsize seq f, width_ok w -> (bsize = 256 \/ bsize = 512) ->
+  Forall (fun x => x < 2 ^ w) seq -> len seq < RSQ_MAXN -> seq <> [] -> maxN seq < 2 ^ 64 - 1 ->
+  lengths_for seq f -> Forall (fun p => snd p <= 32) f -> craft_fits 2 f (len f * 4) = true ->
+  exists t, hq_new bsize seq f = Val t /\ C02_contract w bsize t seq.
+Proof. exact hq_new_total. Qed.
+Print Assumptions C02_new_total.
